@@ -122,12 +122,24 @@ def d16_canary():
     return []
 
 
+def d15_canary():
+    """Dedicated scenario for known finding D15: first() with an activity that fails while the
+    consumer is suspended inside its own loop body."""
+    from ..c02trace import D15_CANARY
+    env, sess = one_run(D15_CANARY, None)
+    return [dict(vio, case={'canary': 'd15'}) for vio in sess.violations
+            if vio['mechanism'] == 'first-internal-cancelscope-hits-consumer'][:1]
+
+
 def run_case(case):
+    if case.get('canary') == 'd15':
+        return {'evals': 1, 'sigs': [], 'stats': {'canary_runs': 1}, 'violations': d15_canary()}
     if case.get('canary') == 'd16':
         return {'evals': 1, 'sigs': [], 'stats': {'canary_runs': 1}, 'violations': d16_canary()}
     program, rng = build(case)
     result = common.explore(case, program, rng, relevant, nontrivial)
     if case['index'] == 0 and case.get('plan') is None:
         result['violations'] += d16_canary()
-        result['stats']['canary_runs'] = 1
+        result['violations'] += d15_canary()
+        result['stats']['canary_runs'] = 2
     return result
